@@ -3,6 +3,7 @@ mod ctx;
 mod drive;
 mod gen;
 mod guard;
+mod hist;
 mod model;
 mod props;
 mod qcheck;
